@@ -47,7 +47,21 @@ theorem nonWs_inlineMarkup (sty : Styles) (a : Attrs) (t : Str) : (nonWs t).Subl
 def leafMethod (m : MName) : Bool :=
   m == .text_s || m == .text_tab || m == .text_line_break || m == .do_nothing || m == .draw_image
 
-def notBlock (q : Str) : Prop := q ≠ tTextBox ∧ q ≠ tFrame ∧ q ≠ tP ∧ q ≠ tH ∧ q ≠ tList ∧ q ≠ tTable ∧ q ≠ tSection
+/-! **tie to the source** (`CONTAINER_TAGS`, regenerated on every run): frames, text boxes and sections are containers;
+    paragraphs, headings, lists, tables, pages and notes are not -/
+theorem isContainer_frame : isContainer tFrame = true := by decide +kernel
+theorem isContainer_textBox : isContainer tTextBox = true := by decide +kernel
+theorem isContainer_section : isContainer tSection = true := by decide +kernel
+theorem isContainer_p : isContainer tP = false := by decide +kernel
+theorem isContainer_h : isContainer tH = false := by decide +kernel
+theorem isContainer_list : isContainer tList = false := by decide +kernel
+theorem isContainer_table : isContainer tTable = false := by decide +kernel
+theorem isContainer_page : isContainer tPage = false := by decide +kernel
+theorem isContainer_note : isContainer tNote = false := by decide +kernel
+
+/-- not a container (`CONTAINER_TAGS`: frames, text boxes, shapes, sections, numbered paragraphs, indexes) and none of the
+    block elements textToString has a case for -/
+def notBlock (q : Str) : Prop := isContainer q = false ∧ q ≠ tP ∧ q ≠ tH ∧ q ≠ tList ∧ q ≠ tTable ∧ q ≠ tSection
 
 mutual
 /-- inline content: text, elements converted by `inline_markup`, and leaf methods -/
@@ -76,18 +90,18 @@ theorem nodeStr_markup (sty : Styles) (st : MSt) (q : Str) (a : Attrs) (kids : L
       match kidsStr sty st kids with
       | .error e => .error e
       | .ok (t, st1) => .ok (inlineMarkup sty a t, st1) := by
-  obtain ⟨h1, h2, h3, h4, h5, h6, h7⟩ := h
+  obtain ⟨h1, h3, h4, h5, h6, h7⟩ := h
   rw [nodeStr.eq_def]
-  simp [h1, h2, h3, h4, h5, h6, h7, hm]
+  simp [h1, h3, h4, h5, h6, h7, hm]
   cases kidsStr sty st kids with
   | error e => rfl
   | ok v => rfl
 
 theorem nodeStr_leaf (sty : Styles) (st : MSt) (q : Str) (a : Attrs) (kids : List Node) (m : MName) (h : notBlock q)
     (hm : moinMethod q = some m) (hl : leafMethod m = true) : ∃ t, nodeStr sty st (.elem q a kids) = .ok (t, st) := by
-  obtain ⟨h1, h2, h3, h4, h5, h6, h7⟩ := h
+  obtain ⟨h1, h3, h4, h5, h6, h7⟩ := h
   rw [nodeStr.eq_def]
-  simp only [h1, h2, h3, h4, h5, h6, h7, hm]
+  simp only [h1, h3, h4, h5, h6, h7, hm]
   cases m <;> simp [leafMethod] at hl <;> simp
 
 mutual
@@ -206,12 +220,14 @@ theorem topStr_paras (sty : Styles) (st : MSt) (l : List Node) (h : ∀ n ∈ l,
     obtain ⟨r, st1, hr, hf1, hs1⟩ := paraPost_ok sty q a (inlineMarkup sty a t) st hp
     obtain ⟨ts, st2, h2, hf2, hs2⟩ := ih st1 (fun m hm => h m (by simp [hm]))
     have hsub : (nonWs (mvisL kids)).Sublist (nonWs r) := (hs.trans (nonWs_inlineMarkup sty a t)).trans hs1
-    have hne : q ≠ tList ∧ q ≠ tSection ∧ q ≠ tTable := by
-      rcases hq with rfl | rfl <;> decide
+    have hne : q ≠ tList ∧ isContainer q = false ∧ q ≠ tTable := by
+      rcases hq with rfl | rfl
+      · exact ⟨by decide, isContainer_p, by decide⟩
+      · exact ⟨by decide, isContainer_h, by decide⟩
     have hsel : ((q = tPage ∨ q = tP) ∨ q = tH) := by rcases hq with h | h <;> simp [h]
     refine ⟨if r.isEmpty then ts else r :: ts, st2, ?_, by rw [hf2, hf1], ?_⟩
     · simp only [topStr, hne.1, hne.2.1, hne.2.2, if_false, ht, hr]
-      simp only [Bool.or_eq_true, decide_eq_true_eq, hsel, if_true, h2]
+      simp only [Bool.or_eq_true, decide_eq_true_eq, hsel, if_true, Bool.false_eq_true, if_false, h2]
     · simp only [pvisL, List.flatMap_cons, pvis, nonWs_append]
       split
       · rename_i he
